@@ -67,6 +67,10 @@ type Object struct {
 	// poison: bytes at index >= poisonFrom (term) must not be read
 	poisonFrom *Term
 	inputName  string
+	// channels: vals is the queue
+	isChan     bool
+	chanCap    int
+	chanClosed bool
 	// native: a Go value held on behalf of a model (e.g. a compiled *regexp.Regexp)
 	native any
 }
